@@ -26,15 +26,17 @@ GRP = 'src/pregex/core/groups.py'
 # (mutant id, properties whose check must catch it, file, old, new[, expect]) ; expect 'green' marks a negative control
 MUTANTS = [
     ('C01-enclose-str-unescaped', ['C01'], PRE,
-     "        pre = __class__._to_pregex(pre)._concat_conditional_group()\n        pattern = f\"{pre}{self._concat_conditional_group()}{pre}\"",
-     "        pre = (Pregex(pre, escape=False) if isinstance(pre, str) else __class__._to_pregex(pre))._concat_conditional_group()\n        pattern = f\"{pre}{self._concat_conditional_group()}{pre}\""),
+     "        pre = __class__._to_pregex(pre)._concat_conditional_group()\n        pattern = __class__.__join(pre, self._concat_conditional_group())",
+     "        pre = (Pregex(pre, escape=False) if isinstance(pre, str) else __class__._to_pregex(pre))._concat_conditional_group()\n        pattern = __class__.__join(pre, self._concat_conditional_group())"),
     ('C01-escape-first-occurrence-only', ['C01'], PRE,
      '            pattern = pattern.replace(c, f"\\\\{c}")', '            pattern = pattern.replace(c, f"\\\\{c}", 1)'),
     ('C02-enclose-drops-group-of-enclosing', ['C02'], PRE,
-     "        pre = __class__._to_pregex(pre)._concat_conditional_group()\n        pattern = f\"{pre}{self._concat_conditional_group()}{pre}\"",
-     "        pre = str(__class__._to_pregex(pre))\n        pattern = f\"{pre}{self._concat_conditional_group()}{pre}\""),
+     "        pre = __class__._to_pregex(pre)._concat_conditional_group()\n        pattern = __class__.__join(pre, self._concat_conditional_group())",
+     "        pre = str(__class__._to_pregex(pre))\n        pattern = __class__.__join(pre, self._concat_conditional_group())"),
     ('C02-match-at-end-ungrouped', ['C02'], PRE,
      '        return __class__(f"{self._assert_conditional_group()}\\\\Z", escape=False)', '        return __class__(f"{self}\\\\Z", escape=False)'),
+    ('C02-backreference-digit-guard-removed', ['C02', 'C08'], PRE,
+     "        if right[:1] in tuple(\"0123456789\") and \\", "        if False and right[:1] in tuple(\"0123456789\") and \\"),
     ('C03-repr-keeps-doubled-backslashes', ['C03', 'C11'], PRE,
      '        return _re.sub(r"\\\\\\\\", r"\\\\", repr(self.__pattern)[1:-1])', '        return repr(self.__pattern)[1:-1]'),
     ('C04-inverted-bounds-accepted-when-m-is-0', ['C04'], PRE,
@@ -48,11 +50,11 @@ MUTANTS = [
      "        if self._get_type() == _Type.Empty:\n            return self\n        return __class__(\n            f\"{self._quantify_conditional_group()}?{'' if is_greedy else '?'}\"",
      "        if self._get_type() == _Type.Empty and is_greedy:\n            return self\n        return __class__(\n            f\"{self._quantify_conditional_group()}?{'' if is_greedy else '?'}\""),
     ('C05-capture-shortcircuit-only-unnamed', ['C05'], PRE,
-     "        if self.__type == _Type.Empty:\n            return self\n        elif self.__type == _Type.Group:\n            if self.__pattern.startswith('(?:'):",
-     "        if self.__type == _Type.Empty and name is None:\n            return self\n        elif self.__type == _Type.Group:\n            if self.__pattern.startswith('(?:'):"),
+     "        if self.__type == _Type.Empty:\n            return self\n        elif self.__type == _Type.Group and not self.__pattern.startswith(('(?P=', '(?(')):\n            if self.__pattern.startswith('(?:'):",
+     "        if self.__type == _Type.Empty and name is None:\n            return self\n        elif self.__type == _Type.Group and not self.__pattern.startswith(('(?P=', '(?(')):\n            if self.__pattern.startswith('(?:'):"),
     ('C05-group-shortcircuit-only-without-flag', ['C05'], PRE,
-     "        if self.__type == _Type.Empty:\n            return self\n        elif self.__type == _Type.Group:\n            if self.__pattern.startswith('(?P'):",
-     "        if self.__type == _Type.Empty and not is_case_insensitive:\n            return self\n        elif self.__type == _Type.Group:\n            if self.__pattern.startswith('(?P'):"),
+     "        if self.__type == _Type.Empty:\n            return self\n        elif self.__type == _Type.Group and not self.__pattern.startswith(('(?P=', '(?(')):\n            if self.__pattern.startswith('(?P'):",
+     "        if self.__type == _Type.Empty and not is_case_insensitive:\n            return self\n        elif self.__type == _Type.Group and not self.__pattern.startswith(('(?P=', '(?(')):\n            if self.__pattern.startswith('(?P'):"),
     ('NEGATIVE-CONTROL-concat-empty-returns-equal-copy', ['C05', 'C20'], PRE,
      "        if pre._get_type() == _Type.Empty:\n            return self\n\n        pattern = self._concat_conditional_group()",
      "        if pre._get_type() == _Type.Empty:\n            return __class__(str(self), escape=False)\n\n        pattern = self._concat_conditional_group()", 'green'),
